@@ -69,4 +69,8 @@ TEXTS.update({
             "level_note": _STREAM_NOTE},
 })
 
+TEXTS["C15"] = {"engine": "attack", "design_ref": "§4 C15", "technique": "deterministic scheduling of concurrent callers with parking inside the source's Read and breakpoints inside the targeters; linearizability of the recorded history against a queue / fetch-and-add model; race build",
+    "level_text": "exploration: stream targeters hand out every target exactly once, unmixed, in an order consistent with real time, and report exhaustion to every later caller; the static targeter rotates evenly (each of k targets floor(n/k) or ceil(n/k) times, exact order when calls do not overlap); the -race build (hidden hand-offs) reports unsynchronised access",
+    "level_note": _ATK_NOTE}
+
 NOT_APPLICABLE = {}
